@@ -16,7 +16,7 @@ from schemathesis.core.result import Err, Ok
 from schemathesis.specs.openapi.parameters import parameters_to_json_schema
 
 _OK = {"responses": {"200": {"description": "OK"}}}
-NAMES = ["a", "b"]
+NAMES = ["a", "b", "A"]  # parameter names are case-sensitive (the upper-case variant is only used for query parameters: header names are not)
 LOCS = ["query", "header"]
 
 
@@ -46,8 +46,8 @@ def _set(param, name, loc):
 
 def merged_parameters(n1: int, l1: int, n2: int, l2: int, m1: int, k1: int, m2: int, k2: int) -> bool:
     """
-    pre: all(0 <= v <= 1 for v in (n1, l1, n2, l2, m1, k1, m2, k2))
-    pre: (n1, l1) != (n2, l2) and (m1, k1) != (m2, k2)
+    pre: all(0 <= v <= 1 for v in (n1, l1, n2, l2, k1, k2)) and 0 <= m1 <= 2 and 0 <= m2 <= 2
+    pre: (n1, l1) != (n2, l2) and (m1, k1) != (m2, k2) and (m1 != 2 or k1 == 0) and (m2 != 2 or k2 == 0)
     post: _
     """
     route = param(0) % 3
@@ -200,8 +200,8 @@ _F = ["schemathesis.specs.openapi.schemas.BaseOpenAPISchema.get_all_operations",
 _ST = ["the document is loaded inside the harness with schemathesis.openapi.from_dict (no file / network)"]
 OBLIGATIONS = [
     Ob(fn="merged_parameters", clause="effective inputs = path-level parameters overridden by operation-level parameters of the same name and location, through iteration, path+method lookup and operationId lookup",
-       timeout={"quick": 400, "thorough": 900}, params=range(3), functions=_F, symbolic="name (2) and location (2) of two path-level and two operation-level parameters (colliding or not); access route enumerated",
-       bounds="2 + 2 parameters over 2 names x 2 locations", stubs=_ST, outside=["$ref'd parameters at depth, security parameters, request bodies"]),
+       timeout={"quick": 400, "thorough": 900}, params=range(3), functions=_F, symbolic="name and location (2) of two path-level and two operation-level parameters (colliding or not, incl. names differing only by case); access route enumerated",
+       bounds="2 + 2 parameters over 2 (path level) / 3 (operation level) names x 2 locations", stubs=_ST, outside=["$ref'd parameters at depth, security parameters, request bodies"]),
     Ob(fn="path_level_isolation", clause="no operation is tested with a different definition: path-level parameters apply to their own path item only, for every access route",
        timeout=300, functions=_F[:6], symbolic="which of 3 consecutive path items declare path-level parameters; access route (3)", bounds="3 path items", stubs=_ST),
     Ob(fn="lookup_agreement", clause="lookup by path and method, by operationId, by JSON reference and iteration return the same operation, in any order of access (shared caches), incl. paths with ~0 / ~1 escapes",
